@@ -278,6 +278,9 @@ pub struct Decoded {
     pub n_bbn: usize,
     /// largest body of a live branch node: 6 bytes per entry + prefix and separator bits rounded up to a byte
     pub max_bbn_body: usize,
+    /// leaves with no free byte between the cell pointers and the first value / with fewer than 8 free bytes
+    pub leaves_exactly_full: usize,
+    pub leaves_nearly_full: usize,
     pub n_overflow_values: usize,
     pub n_overflow_pages: usize,
     pub ln_free: FreeListD,
@@ -446,6 +449,18 @@ pub fn decode_image(img: &DirImage) -> Result<Decoded, String> {
         }
         d.leaf_pages.insert(*lpn);
         let cells = decode_leaf(page(ln, *lpn), *lpn)?;
+        {
+            let lp = page(ln, *lpn);
+            let n = cells.len();
+            let first = (u16le(lp, 2 + 32) & 0x7fff) as usize;
+            let free = first.saturating_sub(2 + 34 * n);
+            if free == 0 {
+                d.leaves_exactly_full += 1;
+            }
+            if free < 8 {
+                d.leaves_nearly_full += 1;
+            }
+        }
         d.n_leaves += 1;
         let next = seps.get(i + 1).map(|s| s.0);
         for (k, c) in cells {
